@@ -10,9 +10,11 @@ use embassy_futures::select::select4;
 
 use rs_matter::crypto::Crypto;
 use rs_matter::dm::clusters::net_comm::NetworkType;
-use rs_matter::dm::networks::wireless::{
-    NetCtlState, NetCtlWithStatusImpl, NoopWirelessNetCtl, WifiNetworks,
-};
+use rs_matter::dm::clusters::net_comm::{NetCtl, NetCtlError, NetworkScanInfo, WirelessCreds};
+use rs_matter::dm::clusters::wifi_diag::{WifiDiag, WirelessDiag};
+use rs_matter::dm::networks::wireless::{NetCtlState, NetCtlWithStatusImpl, WifiNetworks};
+use rs_matter::dm::networks::NetChangeNotif;
+use rs_matter::utils::sync::DynBase;
 use rs_matter::dm::{endpoints, Node};
 use rs_matter::error::{Error, ErrorCode};
 use rs_matter::im::{InteractionModel, WirelessInteractionModelState};
@@ -72,10 +74,7 @@ pub async fn run_device<C: Crypto>(
     }
 
     let net_ctl_state = NetCtlState::new_with_mutex();
-    let net_ctl = NetCtlWithStatusImpl::new(
-        &net_ctl_state,
-        NoopWirelessNetCtl::new(NetworkType::Wifi),
-    );
+    let net_ctl = NetCtlWithStatusImpl::new(&net_ctl_state, SimNetCtl::new());
 
     let rand = match crypto.rand() {
         Ok(r) => r,
@@ -120,6 +119,56 @@ pub async fn run_device<C: Crypto>(
     .coalesce()
     .await;
 }
+
+/// A simulated Wi-Fi controller: `connect` succeeds at once and the link then reports
+/// "connected" (so the operational wireless manager parks instead of re-connecting in a
+/// loop); scanning is not supported; the link state never changes by itself.
+pub struct SimNetCtl {
+    connected: core::cell::Cell<bool>,
+}
+
+impl SimNetCtl {
+    pub const fn new() -> Self {
+        Self {
+            connected: core::cell::Cell::new(false),
+        }
+    }
+}
+
+impl NetCtl for SimNetCtl {
+    fn net_type(&self) -> NetworkType {
+        NetworkType::Wifi
+    }
+
+    async fn scan<F>(&self, _network: Option<&[u8]>, _f: F) -> Result<(), NetCtlError>
+    where
+        F: FnMut(&NetworkScanInfo) -> Result<(), Error>,
+    {
+        Err(NetCtlError::Other(ErrorCode::InvalidAction.into()))
+    }
+
+    async fn connect(&self, creds: &WirelessCreds<'_>) -> Result<(), NetCtlError> {
+        creds.check_match(NetworkType::Wifi)?;
+        self.connected.set(true);
+        Ok(())
+    }
+}
+
+impl NetChangeNotif for SimNetCtl {
+    async fn wait_changed(&self) {
+        core::future::pending().await
+    }
+}
+
+impl DynBase for SimNetCtl {}
+
+impl WirelessDiag for SimNetCtl {
+    fn connected(&self) -> Result<bool, Error> {
+        Ok(self.connected.get())
+    }
+}
+
+impl WifiDiag for SimNetCtl {}
 
 /// Index helper
 pub fn nz(i: u8) -> NonZeroU8 {
